@@ -197,4 +197,23 @@ PROPS = {
         level_note="Trusted: Lean kernel; float evaluation of the schedule (checked per run); Go timer semantics under synctest.",
         engine="step-harness+synctest",
     ),
+    "C09": dict(
+        lean_modules=["Swim.Model.Verify", "Swim.Lemmas.Merge", "Swim.Props.C09"],
+        tests="^TestC09$",
+        shards_quick=4,
+        rule=("(vp) verifyProtocol on local tables of 1-4 records (alive/suspect/dead, admitted version vectors or none) against remote lists of 0-3 "
+              "entries in every state with boundary-biased 6-tuples {0,1,2,3,5,255}, short vectors and a near-compatible half; (adm) mergeRemoteState "
+              "with version errors and merge-delegate vetoes: nothing may change; (join) a real Join over an in-memory duplex stream between a host "
+              "with a random history and a joiner, both post-states compared with the model's mergeState of the other side's pre-state; (cut) request "
+              "and response of a push/pull cut at every byte under random label/encryption/compression; (cap) an encrypted envelope just over the 20 MiB "
+              "cap with a complete body; non-trivial = multi-entry tables / successful joins with 3+ records"),
+        trusted_base=COMMON_TB + ["go-msgpack stream decoding of the push/pull state (exercised at every cut point, not modelled)", "net.Pipe"],
+        assumptions=["join exchanges are not concurrent with other state changes on the two nodes (concurrent gossip is the simulator's leg)"],
+        level_text=("Proof: verifyProtocol soundness (acceptance implies every listed node's spoken versions lie within every alive node's understood "
+                    "range, both sides), admission order (version error / veto before any merge), hearsay never kills, reported-alive members are listed "
+                    "after the merge (Lean). Tied by table correspondence of verifyProtocol, full joins compared with the model on both nodes, and "
+                    "cut-at-every-byte / oversize campaigns on the real stream code."),
+        level_note="Trusted: Lean kernel; msgpack stream framing and TCP behaviour are exercised, not proved (all-or-nothing at byte level is an enumeration).",
+        engine="step-harness+codec-harness",
+    ),
 }
